@@ -58,6 +58,10 @@ pub enum Op {
     Advance { ns: i64 },
     /// set the clock to the time trigger's scheduled instant + offset
     AdvanceToNext { offset_s: i64 },
+    /// `count` appends of `len` bytes each, numbered from `n0` (scale profiles:
+    /// tens of thousands of records through one appender); the directory is
+    /// compared with the model once the burst is over, not after every record
+    Burst { n0: u16, count: u32, len: u32 },
 }
 
 #[derive(Clone, Debug, Serialize, Deserialize, PartialEq)]
@@ -123,6 +127,11 @@ pub struct Scn {
     /// write fails with ENOSPC, as on a full disk behind a redirection)
     #[serde(default)]
     pub std_broken: bool,
+    /// (> 0) everything lives below a long directory name of non-ASCII
+    /// characters (variant number): paths of well over 64 bytes in which most
+    /// byte offsets are not character boundaries
+    #[serde(default)]
+    pub long_path: u8,
     pub sched_seed: u64,
     pub policy: kernel::Policy,
 }
@@ -178,6 +187,8 @@ struct Shared {
     c16_boundary_fires: Mutex<u64>,
     /// the time trigger's scheduled instant as last observed (i64::MIN = none)
     next_sched: Mutex<i64>,
+    /// a burst is under way: per-record directory comparisons are postponed to its end
+    bulk: std::sync::atomic::AtomicBool,
 }
 
 
@@ -535,6 +546,10 @@ fn hist_bytes(slot: u16, lens: &[u32]) -> Vec<u8> {
     v
 }
 
+pub fn enc_len_pub(tid: u16, n: u16, len: u32) -> u64 {
+    enc_len(tid, n, len)
+}
+
 fn enc_len(tid: u16, n: u16, len: u32) -> u64 {
     // header: 0x02 tid,n,len 0x03
     (format!("{},{},{}", tid, n, len).len() + 2) as u64 + len as u64
@@ -636,7 +651,16 @@ fn gen_limit(rng: &mut Rng) -> u64 {
 
 fn gen_time_trigger(rng: &mut Rng) -> TriggerSpec {
     let unit = *rng.pick(&Unit::ALL);
-    let n = *rng.pick(&[1i64, 1, 1, 2, 3, 4, 5, 6, 7, 8, 9, 10, 11, 12, 24, 30, 31, 52, 53, 60, 61, 100, 365, 366, 400, 1000]);
+    let mut n = *rng.pick(&[1i64, 1, 1, 2, 3, 4, 5, 6, 7, 8, 9, 10, 11, 12, 24, 30, 31, 52, 53, 60, 61, 100, 365, 366, 400, 1000]);
+    if rng.chance(1, 12) {
+        // small units with multipliers that amount to whole larger units (or several of them)
+        n = match unit {
+            Unit::Second => *rng.pick(&[3600i64, 7200, 86400, 172800, 604800, 3601, 90000]),
+            Unit::Minute => *rng.pick(&[60i64, 120, 1440, 2880, 4320, 10080, 1441]),
+            Unit::Hour => *rng.pick(&[24i64, 25, 36, 48, 72, 168, 720]),
+            _ => n,
+        };
+    }
     TriggerSpec::Time { unit, n, modulate: rng.chance(1, 2), max_delay: *rng.pick(&[0u64, 0, 0, 1, 7, 3600]) }
 }
 
@@ -686,6 +710,118 @@ pub fn generate_encfail(rng: &mut Rng, tier: Tier, base_profile: &str) -> Scn {
             _ => {}
         }
     }
+    s
+}
+
+/// Beyond small cases: records far larger than any internal buffer, windows
+/// whose indices change their number of digits, tens of thousands of records
+/// through one appender, long streaks of failing rotations.
+pub fn generate_scale(rng: &mut Rng, tier: Tier, base_profile: &str) -> Scn {
+    let mut s = generate(rng, tier, base_profile);
+    for ph in s.phases.iter_mut() {
+        if let Phase::Restart { overlap, .. } = ph {
+            *overlap = false;
+        }
+    }
+    let flavour = rng.weighted(&[5, 4, 1]);
+    match flavour {
+        0 => {
+            // big records, preferably the first of a lifetime
+            const BIG: [u32; 10] = [4090, 4097, 5000, 8193, 16385, 65500, 65537, 70000, 131072, 200000];
+            for ph in s.phases.iter_mut() {
+                if let Phase::Work { threads } = ph {
+                    for t in threads.iter_mut() {
+                        let mut first = true;
+                        for op in t.iter_mut() {
+                            if let Op::Append { len, .. } = op {
+                                if (first && rng.chance(2, 3)) || rng.chance(1, 5) {
+                                    *len = *rng.pick(&BIG) + rng.below(3) as u32;
+                                }
+                                first = false;
+                            }
+                        }
+                    }
+                }
+            }
+            if let TriggerSpec::Size { limit } = &mut s.trigger {
+                if rng.chance(1, 2) {
+                    *limit = *rng.pick(&[65536u64, 100_000, 300_000]);
+                }
+            }
+        }
+        1 => {
+            // wide windows: indices cross 9 -> 10 (or 99 -> 100) while many rotations happen
+            let pat = *rng.pick(&[PatKind::Name, PatKind::Name, PatKind::Dir, PatKind::Env]);
+            let (base, count) = *rng.pick(&[(0u32, 12u32), (0, 18), (1, 12), (0, 30), (5, 20), (95, 10), (92, 17)]);
+            s.roller = RollerSpec::Fixed { pat, base, count };
+            s.pre_archives.retain(|(i, _)| *i < base + count + 3);
+            let pre = rng.chance(1, 2);
+            let nrec = rng.range(count as u64 + 2, count as u64 + 16) as u16;
+            let mut fire: Vec<RecId> = (0..nrec).map(|n| RecId { tid: 0, n }).collect();
+            for i in 0..3 {
+                fire.push(RecId { tid: 800, n: i });
+            }
+            if base_profile != "C06" && base_profile != "C17" && base_profile != "C16" {
+                s.trigger = TriggerSpec::Script { pre, fire };
+                s.tz = None;
+                s.start_ns = common::T0_NS;
+            } else if let TriggerSpec::Size { limit } = &mut s.trigger {
+                *limit = 10;
+            }
+            s.enc_fail.clear();
+            s.silent.clear();
+            s.phases = vec![Phase::Work { threads: vec![(0..nrec).map(|n| Op::Append { n, len: 12 + (n as u32 % 7) }).collect()] }];
+        }
+        _ => {
+            // tens of thousands of records through one appender
+            let total = *rng.pick(&[33_000u32, 66_000, 70_000]);
+            let nthreads = if total > 60_000 { 2 } else { rng.range(1, 2) as u32 };
+            let len = rng.range(0, 30) as u32;
+            if let TriggerSpec::Size { limit } = &mut s.trigger {
+                // one or two rotations on the way
+                *limit = (total as u64 * (len as u64 + 10)) * *rng.pick(&[2u64, 3, 5]) / 5;
+            }
+            if let TriggerSpec::Script { fire, .. } = &mut s.trigger {
+                fire.retain(|r| r.tid >= 800);
+                fire.push(RecId { tid: 0, n: (total / nthreads / 2) as u16 });
+            }
+            s.enc_fail.clear();
+            s.silent.clear();
+            let keep_restart = s.phases.iter().find(|p| matches!(p, Phase::Restart { .. })).cloned();
+            s.phases = vec![Phase::Work { threads: (0..nthreads).map(|_| vec![Op::Burst { n0: 0, count: total / nthreads, len }]).collect() }];
+            if let (Some(r), true) = (keep_restart, rng.chance(1, 2)) {
+                s.phases.push(r);
+                s.phases.push(Phase::Work { threads: vec![vec![Op::Append { n: 0, len: 9 }, Op::Append { n: 1, len: 900 }]] });
+            }
+        }
+    }
+    s
+}
+
+/// A long streak of failing rotations (a real obstruction that stays for well
+/// over a hundred records, every one of which asks for a rotation), then the
+/// obstruction goes away: rotation must resume (C08's liveness clause).
+pub fn generate_streak(rng: &mut Rng, tier: Tier) -> Scn {
+    let mut s = generate(rng, tier, "C08-obst");
+    let count = rng.range(1, 3) as u32;
+    let base = *rng.pick(&[0u32, 1, 7]);
+    s.roller = RollerSpec::Fixed { pat: *rng.pick(&[PatKind::Name, PatKind::Dir, PatKind::Env]), base, count };
+    s.trigger = TriggerSpec::Size { limit: *rng.pick(&[0u64, 10, 40]) };
+    s.tz = None;
+    s.start_ns = common::T0_NS;
+    s.enc_fail.clear();
+    s.silent.clear();
+    s.append = true;
+    let streak = *rng.pick(&[130u32, 140, 200, 300]);
+    // the obstruction sits at the base slot of an empty window from the start: every final move fails
+    s.pre_archives.clear();
+    let mut phases = vec![Phase::Obstacle { off: 0, put: true }, Phase::Work { threads: vec![vec![Op::Burst { n0: 0, count: streak, len: 20 }]] }];
+    for o in 0..=count {
+        phases.push(Phase::Obstacle { off: o, put: false });
+    }
+    phases.push(Phase::Work { threads: vec![vec![Op::Append { n: 0, len: 30 }, Op::Append { n: 1, len: 30 }]] });
+    s.phases = phases;
+    s.liveness = true;
     s
 }
 
@@ -849,12 +985,16 @@ pub fn generate(rng: &mut Rng, tier: Tier, profile: &str) -> Scn {
         silent,
         via_logger: false,
         std_broken: false,
+        long_path: 0,
         sched_seed: rng.next_u64(),
         policy: common::gen_policy(rng),
     };
     if profile.starts_with("C08") {
         s.via_logger = rng.chance(1, 3);
         s.std_broken = rng.chance(1, 3);
+        if rng.chance(1, 4) {
+            s.long_path = rng.range(1, LONG_DIRS.len() as u64) as u8;
+        }
     }
     s
 }
@@ -1079,6 +1219,11 @@ fn do_append(sh: &Arc<Shared>, appender: &dyn Append, id: RecId, len: u32, other
             // policy contract: one roll per firing
             if fl.rolls + fl.roll_errs != fl.fired {
                 sh.sink.fail("C05", "C05-I3", "fire-roll-mismatch", format!("append of {}: trigger fired {} time(s) but the roller ran {} time(s)", id, fl.fired, fl.rolls + fl.roll_errs));
+                if sh.fault_mode {
+                    // with an obstruction or a fault in the history this is C08's business too: the
+                    // appender has stopped attempting the rotation instead of reporting its failure
+                    sh.sink.fail("C08", "C08-I1", "rotation-not-attempted", format!("append of {} returned Ok although its trigger asked for a rotation and the roller was not called ({} fired, {} attempted)", id, fl.fired, fl.rolls + fl.roll_errs));
+                }
             }
             let dirty = *sh.dirty.lock().unwrap();
             // trigger-specific, model-based expectations
@@ -1146,6 +1291,8 @@ fn do_append(sh: &Arc<Shared>, appender: &dyn Append, id: RecId, len: u32, other
             }
             if bg_rotation_in_flight() {
                 sh.sink.probe("checks_deferred_background_rotation", 1);
+            } else if sh.bulk.load(std::sync::atomic::Ordering::Relaxed) && fl.rolls == 0 {
+                // inside a burst: compared when the burst is over (and after every rotation)
             } else if !dirty {
                 let at = attr_for(sh);
                 if *sh.lenient.lock().unwrap() {
@@ -1277,12 +1424,34 @@ pub fn setup_tree(scn: &Scn, names: &Names) -> Model {
     model
 }
 
+/// Long directory names in 2- and 3-byte scripts, with ASCII prefixes of
+/// different lengths so that every alignment of a fixed byte offset occurs.
+pub const LONG_DIRS: [&str; 6] = [
+    "журнал-приложения-данные-архив-службы-платежей-и-отчётов",
+    "xжурнал-приложения-данные-архив-службы-платежей-и-отчётов",
+    "日本語のログ保存先ディレクトリの名前はとても長いのです",
+    "x日本語のログ保存先ディレクトリの名前はとても長いのです",
+    "xy日本語のログ保存先ディレクトリの名前はとても長いのです",
+    "protokolle-der-zahlungsdienste-für-größere-übersichten-und-mehr",
+];
+
+static BURSTY: std::sync::atomic::AtomicBool = std::sync::atomic::AtomicBool::new(false);
+
 pub fn execute(scn: &Scn, opts: &ExecOpts) -> Outcome {
     let mut out = Outcome::default();
-    let scratch = Scratch::new("r");
+    BURSTY.store(scn.phases.iter().any(|p| matches!(p, Phase::Work { threads } if threads.iter().flatten().any(|o| matches!(o, Op::Burst { .. })))), std::sync::atomic::Ordering::Relaxed);
+    let outer = Scratch::new("r");
+    let scratch = if scn.long_path > 0 {
+        let inner = Scratch { root: outer.root.join(LONG_DIRS[(scn.long_path as usize - 1) % LONG_DIRS.len()]) };
+        fs::create_dir_all(&inner.root).unwrap();
+        inner
+    } else {
+        Scratch { root: outer.root.join("t") }
+    };
+    fs::create_dir_all(&scratch.root).unwrap();
     let root2 = if matches!(scn.roller, RollerSpec::Fixed { pat: PatKind::SecondMount | PatKind::DirSplit, .. }) {
         fsutil::second_mount_base().map(|b| {
-            let p = b.join(scratch.root.file_name().unwrap());
+            let p = b.join(outer.root.file_name().unwrap());
             let _ = fs::remove_dir_all(&p);
             fs::create_dir_all(&p).unwrap();
             p
@@ -1314,6 +1483,7 @@ pub fn execute(scn: &Scn, opts: &ExecOpts) -> Outcome {
         dirty: Mutex::new(false),
         c16_boundary_fires: Mutex::new(0),
         next_sched: Mutex::new(i64::MIN),
+        bulk: std::sync::atomic::AtomicBool::new(false),
     });
     let sched = opts.sched.clone().unwrap_or(Sched::Prng { seed: scn.sched_seed, policy: scn.policy.clone() });
     let _std = if scn.std_broken {
@@ -1330,7 +1500,7 @@ pub fn execute(scn: &Scn, opts: &ExecOpts) -> Outcome {
         faults: scn.faults.clone(),
         crash: scn.crash.clone(),
         rand_script: scn.rand_script.clone(),
-        step_cap: 50_000,
+        step_cap: if scn.phases.iter().any(|p| matches!(p, Phase::Work { threads } if threads.iter().flatten().any(|o| matches!(o, Op::Burst { .. })))) { 20_000_000 } else { 50_000 },
     });
     if scn.crash.is_some() {
         let shc = sh.clone();
@@ -1564,6 +1734,20 @@ pub fn execute(scn: &Scn, opts: &ExecOpts) -> Outcome {
                                         do_append(&sh, &**a, RecId { tid, n }, len, &inflight_count);
                                     }
                                 }
+                                Op::Burst { n0, count, len } => {
+                                    let a = live.lock().unwrap().appender.clone();
+                                    if let Some(a) = a {
+                                        sh.bulk.store(true, std::sync::atomic::Ordering::Relaxed);
+                                        sh.sink.probe("bursts", 1);
+                                        sh.sink.probe("records_in_bursts", count as u64);
+                                        for k in 0..count {
+                                            if sh.sink.any() {
+                                                break;
+                                            }
+                                            do_append(&sh, &**a, RecId { tid, n: n0.wrapping_add(k as u16) }, len, &inflight_count);
+                                        }
+                                    }
+                                }
                                 Op::Advance { ns } => {
                                     let t = clock::now_ns().saturating_add(ns);
                                     set_clock(t);
@@ -1588,6 +1772,13 @@ pub fn execute(scn: &Scn, opts: &ExecOpts) -> Outcome {
                 // remember overlap after the phase
                 let ov2 = ov.clone();
                 let res = run_bodies(&k, r, &sink, &mut out, &scn.trigger, fault_mode);
+                if sh.bulk.swap(false, std::sync::atomic::Ordering::Relaxed) && res && !sink.any() && !*sh.dirty.lock().unwrap() && !*sh.lenient.lock().unwrap() && !bg_rotation_in_flight() {
+                    let at = attr_for(&sh);
+                    let m = sh.model.lock().unwrap();
+                    if m.pending.is_none() && m.check(&sh.names, &sink, at, false, "after a burst of records") {
+                        m.check_stream(&sh.names, &sink, at.prop, if sh.fault_mode { "C08-I3" } else { "C05-I2" }, "after a burst of records");
+                    }
+                }
                 overlapped |= *ov2.lock().unwrap();
                 if !res {
                     stop = true;
@@ -1647,6 +1838,7 @@ pub fn execute(scn: &Scn, opts: &ExecOpts) -> Outcome {
             dirty: Mutex::new(false),
             c16_boundary_fires: Mutex::new(0),
             next_sched: Mutex::new(i64::MIN),
+            bulk: std::sync::atomic::AtomicBool::new(false),
         });
         let live2 = Arc::new(Mutex::new(Live { appender: None }));
         liveness_epilogue(&k, scn, &sh2, &live2, &sink, &mut out, "a fresh appender over the crash image");
@@ -1837,7 +2029,9 @@ fn liveness_epilogue(k: &Arc<kernel::Kernel>, scn: &Scn, sh: &Arc<Shared>, live:
 }
 
 fn run_bodies(k: &Arc<kernel::Kernel>, bodies: Vec<Box<dyn FnOnce() + Send>>, sink: &Arc<Sink>, out: &mut Outcome, trigger: &TriggerSpec, obstructed: bool) -> bool {
-    let panics = k.run_phase(bodies, common::WATCHDOG_S);
+    // a burst of tens of thousands of records is one phase: it gets more time before it counts as a stall
+    let wd = if BURSTY.load(std::sync::atomic::Ordering::Relaxed) { 900.0 } else { common::WATCHDOG_S };
+    let panics = k.run_phase(bodies, wd);
     for (t, msg) in panics {
         if t == usize::MAX {
             out.harness_error = Some("STALL: a simulated thread did not reach a decision point".into());
@@ -1889,6 +2083,9 @@ pub fn size(s: &Scn) -> usize {
                     if let Op::Append { len, .. } = o {
                         n += (*len as usize) / 256;
                     }
+                    if let Op::Burst { count, .. } = o {
+                        n += (*count as usize) / 100;
+                    }
                 }
             }
         }
@@ -1898,6 +2095,34 @@ pub fn size(s: &Scn) -> usize {
 
 pub fn shrink(s: &Scn) -> Vec<Scn> {
     let mut out = vec![];
+    for (pi, p) in s.phases.iter().enumerate() {
+        if let Phase::Work { threads } = p {
+            for (ti, t) in threads.iter().enumerate() {
+                for (oi, o) in t.iter().enumerate() {
+                    if let Op::Burst { n0, count, len } = o {
+                        for c2 in [*count / 2, count.saturating_sub(1000), count.saturating_sub(1)] {
+                            if c2 > 0 && c2 < *count {
+                                let mut c = s.clone();
+                                if let Phase::Work { threads } = &mut c.phases[pi] {
+                                    threads[ti][oi] = Op::Burst { n0: *n0, count: c2, len: *len };
+                                }
+                                out.push(c);
+                            }
+                        }
+                    }
+                    if let Op::Append { n, len } = o {
+                        if *len > 4096 {
+                            let mut c = s.clone();
+                            if let Phase::Work { threads } = &mut c.phases[pi] {
+                                threads[ti][oi] = Op::Append { n: *n, len: *len / 2 };
+                            }
+                            out.push(c);
+                        }
+                    }
+                }
+            }
+        }
+    }
     for f in 0..3 {
         let mut c = s.clone();
         let on = match f {
